@@ -344,13 +344,21 @@ def run_case(spec):
                     if cands:
                         p = rnd.choice(cands)
                         dst = rnd.choice(["m3.py", "pk/moved.py"])
+                        # side stream (main one not consumed): a destination the default `ignored_resources`
+                        # exclude -- the moved file must leave the file lists of the warm project too
+                        import random as _random
+                        side = _random.Random(hash(rnd.getstate()[1]))
+                        if side.random() < 0.3:
+                            dst = side.choice(["m9.py~", "pk/m9.py~"])
+                            res.ev("moves_onto_ignored_name")
                         if not exists(dst) and exists(os.path.dirname(dst) or "."):
                             kind = "rope-move-file"
                             warm.do(ch.MoveResource(warm.get_file(p), dst, exact=True))
                             log.append([kind, p, dst])
                             # keep the universe stable: allow moving back later
                 elif r < 0.36:
-                    for src, dst in (("m3.py", "m1.py"), ("pk/moved.py", "pk/a.py"), ("pk2", "pk"), ("pk", "pk2")):
+                    for src, dst in (("m3.py", "m1.py"), ("pk/moved.py", "pk/a.py"), ("pk2", "pk"), ("pk", "pk2"),
+                                     ("m9.py~", "m2.py"), ("pk/m9.py~", "pk/b.py")):
                         if exists(src) and not exists(dst) and rnd.random() < 0.6:
                             kind = "rope-move-folder" if "." not in src else "rope-move-file"
                             resrc = warm.get_folder(src) if "." not in src else warm.get_file(src)
